@@ -120,9 +120,10 @@ impl ParseData for FromMetaOptions {
                     );
                 }
 
+                // `#[darling(word = false)]` does not make a variant the word variant.
                 let word_variants: Vec<_> = data
                     .iter()
-                    .filter_map(|variant| variant.word.as_ref())
+                    .filter_map(|variant| variant.word.as_ref().filter(|word| ***word))
                     .collect();
 
                 if !word_variants.is_empty() {
